@@ -701,7 +701,9 @@ class DataType(object):
 
         element = e.choice()
         for allowed_value in split_data_type[1:]:
-            element.append(e.value(allowed_value))
+            # Note that values are of type 'token' by default, which
+            # means that surrounding whitespace would be ignored.
+            element.append(e.value(allowed_value, type='string'))
 
         return element
 
